@@ -1,5 +1,6 @@
 import GqlProofs.PlanCache
 import GqlProofs.NormalizeLoc
+import GqlProofs.NormalizeWF
 import Props.C08Bytes
 /-! # C06 — Prepared plans and the plan cache are semantically transparent
 
@@ -85,10 +86,12 @@ theorem run_reach {o : Opts} (build : S → Bytes → Bytes → R) : ∀ (ops : 
         · simp only [Option.some.injEq] at h0; subst h0
           exact getRawWith_reach rawKey build s q op (h c rfl)
 
+variable (fb : KeyShape)
+
 /-- every history in normalising mode stays inside `Reach`, whatever the normaliser and fingerprint do -/
 theorem runNorm_reach {o : Opts} (norm : S → Bytes → Bytes → NormOut A) (build errRes buildN : S → Bytes → Bytes → R)
     (failed : R → Bool) : ∀ (ops : List (Op S)) (c : Cache S R), Reach o c →
-      Reach o (runNorm norm build errRes buildN failed c ops).1 := by
+      Reach o (runNorm fb norm build errRes buildN failed c ops).1 := by
   intro ops
   induction ops with
   | nil => intro c h; exact h
@@ -102,7 +105,7 @@ theorem runNorm_reach {o : Opts} (norm : S → Bytes → Bytes → NormOut A) (b
       simp only [stepNorm]
       split
       · exact h
-      · exact getNorm_reach norm errRes buildN failed s q op h
+      · exact getNorm_reach fb norm errRes buildN failed s q op h
 
 /-- **size_le_cap / keys_nodup for histories, raw mode**: after any history from a fresh cache, the cache holds at
 most `capOf o` entries (1024 if `MaxEntries ≤ 0`) with distinct keys. -/
@@ -115,9 +118,9 @@ theorem run_bounded (o : Opts) (build : S → Bytes → Bytes → R) (ops : List
 /-- **size_le_cap / keys_nodup for histories, normalising mode** (holds although the normaliser has known defects) -/
 theorem runNorm_bounded (o : Opts) (norm : S → Bytes → Bytes → NormOut A) (build errRes buildN : S → Bytes → Bytes → R)
     (failed : R → Bool) (ops : List (Op S)) :
-    (runNorm norm build errRes buildN failed (newPlanCache o) ops).1.items.length ≤ capOf o ∧
-    (keysOf (runNorm norm build errRes buildN failed (newPlanCache o) ops).1).Nodup := by
-  have hr := runNorm_reach (o := o) norm build errRes buildN failed ops (newPlanCache o) Reach.new
+    (runNorm fb norm build errRes buildN failed (newPlanCache o) ops).1.items.length ≤ capOf o ∧
+    (keysOf (runNorm fb norm build errRes buildN failed (newPlanCache o) ops).1).Nodup := by
+  have hr := runNorm_reach fb (o := o) norm build errRes buildN failed ops (newPlanCache o) Reach.new
   exact ⟨size_le_cap hr, keys_nodup hr⟩
 
 /-! ## 3. Transparency of the raw mode -/
@@ -364,7 +367,7 @@ hands back are `none` or exactly those extracted from *this* call's query — ne
 populated the shared entry. -/
 theorem synthArgs_are_this_request's (norm : S → Bytes → Bytes → NormOut A) (errRes buildN : S → Bytes → Bytes → R)
     (failed : R → Bool) (c : Cache S R) (s : S) (q op : Bytes) :
-    ∀ sy, (getNorm norm errRes buildN failed c s q op).2.1.synth = some sy → ∃ nk, norm s q op = .ok nk sy := by
+    ∀ sy, (getNorm fb norm errRes buildN failed c s q op).2.1.synth = some sy → ∃ nk, norm s q op = .ok nk sy := by
   intro sy h
   unfold getNorm at h
   cases hn : norm s q op with
@@ -372,7 +375,7 @@ theorem synthArgs_are_this_request's (norm : S → Bytes → Bytes → NormOut A
   | normErr => simp [hn] at h
   | ok nk sy' =>
     simp only [hn] at h
-    rcases hlk : lookup c s (normCacheKey op q nk) with ⟨c', r⟩
+    rcases hlk : lookup c s (normCacheKey fb op q nk) with ⟨c', r⟩
     rw [hlk] at h
     cases r with
     | some r => simp only [Option.some.injEq] at h; subst h; exact ⟨nk, rfl⟩
@@ -391,11 +394,11 @@ the LRU/guard logic adds no further way to serve a wrong plan. -/
 theorem normalized_transparent_partial (norm : S → Bytes → Bytes → NormOut A)
     (errRes buildN : S → Bytes → Bytes → R) (failed : R → Bool)
     (hdet : ∀ s q op q' op' nk sy nk' sy', norm s q op = .ok nk sy → norm s q' op' = .ok nk' sy' →
-      normCacheKey op q nk = normCacheKey op' q' nk' → buildN s q op = buildN s q' op')
-    (c : Cache S R) (s : S) (q op : Bytes) (h : InvN norm buildN c) :
-    InvN norm buildN (getNorm norm errRes buildN failed c s q op).1 ∧
-    ((getNorm norm errRes buildN failed c s q op).2.2 ≠ .noLookup →
-      (getNorm norm errRes buildN failed c s q op).2.1.res = buildN s q op) := by
+      normCacheKey fb op q nk = normCacheKey fb op' q' nk' → buildN s q op = buildN s q' op')
+    (c : Cache S R) (s : S) (q op : Bytes) (h : InvN fb norm buildN c) :
+    InvN fb norm buildN (getNorm fb norm errRes buildN failed c s q op).1 ∧
+    ((getNorm fb norm errRes buildN failed c s q op).2.2 ≠ .noLookup →
+      (getNorm fb norm errRes buildN failed c s q op).2.1.res = buildN s q op) := by
   unfold getNorm
   cases hn : norm s q op with
   | parseErr => exact ⟨h, by simp⟩
@@ -403,7 +406,7 @@ theorem normalized_transparent_partial (norm : S → Bytes → Bytes → NormOut
   | ok nk sy =>
     simp only []
     unfold lookup
-    cases hf : findKey (normCacheKey op q nk) c.items with
+    cases hf : findKey (normCacheKey fb op q nk) c.items with
     | none =>
       simp only []
       refine ⟨?_, fun _ => by first | rfl | trivial⟩
@@ -449,8 +452,8 @@ cache logic alone; it holds exactly as far as the fingerprint is sound. -/
 theorem normalized_not_transparent_without_hdet :
     ∃ (norm : Nat → Bytes → Bytes → NormOut Unit) (buildN : Nat → Bytes → Bytes → Bytes) (c : Cache Nat Bytes)
       (q1 q2 : Bytes),
-      let c1 := (getNorm norm buildN buildN (fun _ => false) c 0 q1 []).1
-      (getNorm norm buildN buildN (fun _ => false) c1 0 q2 []).2.1.res ≠ buildN 0 q2 [] :=
+      let c1 := (getNorm keyShapeCoded norm buildN buildN (fun _ => false) c 0 q1 []).1
+      (getNorm keyShapeCoded norm buildN buildN (fun _ => false) c1 0 q2 []).2.1.res ≠ buildN 0 q2 [] :=
   ⟨fun _ _ _ => .ok [1] (), fun _ q _ => q, newPlanCache ⟨1, 0, true⟩, [1], [2], by decide +kernel⟩
 
 /-- **normalized_get_faithful** — `normalized_transparent_partial` up to an equivalence `E` of results (reflexive,
@@ -459,11 +462,11 @@ to what its key's request builds, and returns — on a hit or a miss — a resul
 builds. The LRU logic (eviction, schema guard, move-to-front, in-place update) adds no other way to serve a wrong plan. -/
 theorem normalized_get_faithful (E : R → R → Prop) (hrefl : ∀ r, E r r) (htrans : ∀ a b c, E a b → E b c → E a c)
     (norm : S → Bytes → Bytes → NormOut A) (errRes buildN : S → Bytes → Bytes → R) (failed : R → Bool)
-    (hkey : KeyFaithful E norm buildN)
-    (c : Cache S R) (s : S) (q op : Bytes) (h : InvE E norm buildN c) :
-    InvE E norm buildN (getNorm norm errRes buildN failed c s q op).1 ∧
-    (((getNorm norm errRes buildN failed c s q op).2.2 = .hit ∨ (getNorm norm errRes buildN failed c s q op).2.2 = .miss) →
-      E (getNorm norm errRes buildN failed c s q op).2.1.res (buildN s q op)) := by
+    (hkey : KeyFaithful fb E norm buildN)
+    (c : Cache S R) (s : S) (q op : Bytes) (h : InvE fb E norm buildN c) :
+    InvE fb E norm buildN (getNorm fb norm errRes buildN failed c s q op).1 ∧
+    (((getNorm fb norm errRes buildN failed c s q op).2.2 = .hit ∨ (getNorm fb norm errRes buildN failed c s q op).2.2 = .miss) →
+      E (getNorm fb norm errRes buildN failed c s q op).2.1.res (buildN s q op)) := by
   unfold getNorm
   cases hn : norm s q op with
   | parseErr => exact ⟨h, by simp⟩
@@ -471,7 +474,7 @@ theorem normalized_get_faithful (E : R → R → Prop) (hrefl : ∀ r, E r r) (h
   | ok nk sy =>
     simp only []
     unfold lookup
-    cases hf : findKey (normCacheKey op q nk) c.items with
+    cases hf : findKey (normCacheKey fb op q nk) c.items with
     | none =>
       simp only []
       refine ⟨?_, fun _ => hrefl _⟩
@@ -514,8 +517,8 @@ pointer) over a NORMALISING cache, from any state with faithful entries (e.g. th
 through the cache, HIT or miss, returned a result `E`-equivalent to what its own request builds — given `KeyFaithful`. -/
 theorem normalising_history_faithful (E : R → R → Prop) (hrefl : ∀ r, E r r) (htrans : ∀ a b c, E a b → E b c → E a c)
     (norm : S → Bytes → Bytes → NormOut A) (build errRes buildN : S → Bytes → Bytes → R) (failed : R → Bool)
-    (hkey : KeyFaithful E norm buildN) : ∀ (ops : List (Op S)) (c : Cache S R), InvE E norm buildN c →
-      OutsFaithful E buildN ops (runNorm norm build errRes buildN failed c ops).2 := by
+    (hkey : KeyFaithful fb E norm buildN) : ∀ (ops : List (Op S)) (c : Cache S R), InvE fb E norm buildN c →
+      OutsFaithful fb E buildN ops (runNorm fb norm build errRes buildN failed c ops).2 := by
   intro ops
   induction ops with
   | nil => intro c _; trivial
@@ -529,7 +532,7 @@ theorem normalising_history_faithful (E : R → R → Prop) (hrefl : ∀ r, E r 
       simp only [runNorm, stepNorm]
       by_cases hsc : shouldCache c q.length = true
       · simp only [hsc, Bool.not_true, Bool.false_eq_true, if_false, OutsFaithful]
-        obtain ⟨h1, h2⟩ := normalized_get_faithful E hrefl htrans norm errRes buildN failed hkey c s q op h
+        obtain ⟨h1, h2⟩ := normalized_get_faithful fb E hrefl htrans norm errRes buildN failed hkey c s q op h
         exact ⟨h2, ih _ h1⟩
       · simp only [hsc, Bool.not_false, if_true, OutsFaithful]
         exact ⟨fun hh => (by rcases hh with hh | hh <;> cases hh), ih c h⟩
@@ -785,17 +788,25 @@ theorem normalised_request_uniform (s : Schema) (hcc : customLti s) (hsch : Sche
   execUniform_normalised s hcc hsch doc doc' opName inputs synth w hnorm hlex hu
 
 /-- **printed_key_faithful.** A cache key that is the PRINTED normalised document (what the comments in plan_cache.go
-describe, and what the repair `notes/fixes/D-06k.diff` does) is faithful: well-formed documents with the same printed
-text are equal up to source locations — from C08's `parse_print` on bytes. -/
+describe, and what the repair `notes/fixes/D-06k.diff` does: `printedKey` = `"doc:"` + printed text) is faithful:
+well-formed documents with the same key are equal up to source locations — from C08's `parse_print` on bytes. -/
 theorem printed_key_faithful (d1 d2 : Document) (h1 : Printer.WFDocument d1) (h2 : Printer.WFDocument d2)
-    (h : Printer.print d1 = Printer.print d2) : d1.stripLoc = d2.stripLoc := by
+    (h : printedKey d1 = printedKey d2) : d1.stripLoc = d2.stripLoc := by
   obtain ⟨a, ha, hsa⟩ := GqlModel.C08.parse_print d1 h1
   obtain ⟨b, hb, hsb⟩ := GqlModel.C08.parse_print d2 h2
   have : GqlModel.RoundTrip.printBytes d1 = GqlModel.RoundTrip.printBytes d2 := by
-    simp only [GqlModel.RoundTrip.printBytes, h]
+    simp only [printedKey] at h
+    exact List.append_cancel_left h
   rw [this, hb] at ha
   simp only [Except.ok.injEq, GqlModel.Parser.Parsed.mk.injEq, and_true] at ha
   rw [← hsa, ← ha, hsb]
+
+/-- **normalize_keeps_wf.** The normalised document of a printer-well-formed document is printer-well-formed (the
+synthetic names `__pcvN` are GraphQL names, the synthetic definitions carry the arguments' declared types): the premise
+C08's read-back needs to make the printed text identify the NORMALISED document. -/
+theorem normalize_keeps_wf (s : Schema) (hsch : SchemaOK s) (doc docN : Document) (opName : String) (synth : Vars)
+    (hwf : Printer.WFDocument doc) (h : normalizeDocument s doc opName = .ok docN synth) : Printer.WFDocument docN :=
+  normalizeDocument_wf s hsch doc docN opName synth hwf h
 
 /-- **normalising_hit_transparent.** What a faithful key buys, in terms of the executor model: if the document `res` a
 normalising `Get` hands back (on a HIT: the normalised document of the request that populated the entry) equals this
@@ -812,6 +823,153 @@ theorem normalising_hit_transparent (s : Schema) (hcc : customLti s) (hsch : Sch
   rw [execute_of_stripEq s docN res opName (synth ++ inputs) w fuel hres.symm
     (execUniform_normalised s hcc hsch doc docN opName inputs synth w hnorm hlex hu)]
   exact normalized_transparent s hcc hsch doc docN opName inputs synth w fuel hnorm hlex hu
+
+/-- the front end of a normalising `Get` as the cache model sees it, built from the normaliser model: `parse` (opaque:
+C03), the schema behind a pointer, the operation name as text, and the KEY FUNCTION on normalised documents (the
+parameter the theorem is about; `none` = the `"raw:"` fallback handled by `normCacheKey`) -/
+structure Front (S : Type) where
+  parse : PlanCache.Bytes → Option Document
+  schemaOf : S → Schema
+  opStr : PlanCache.Bytes → String
+  keyOf : Document → String → PlanCache.Bytes
+
+def Front.norm {S : Type} (f : Front S) : S → PlanCache.Bytes → PlanCache.Bytes → PlanCache.NormOut Vars := fun s q op =>
+  match f.parse q with
+  | none => .parseErr
+  | some doc =>
+    match normalizeDocument (f.schemaOf s) doc (f.opStr op) with
+    | .rootError => .normErr
+    | .notApplicable => .ok [] []
+    | .ok d sy => .ok (f.keyOf d (f.opStr op)) sy
+
+/-- what is stored for a request: its normalised document (the original one where normalisation does not apply) -/
+def Front.buildN {S : Type} (f : Front S) : S → PlanCache.Bytes → PlanCache.Bytes → Document := fun s q op =>
+  match f.parse q with
+  | none => ⟨[], Loc.none⟩
+  | some doc =>
+    match normalizeDocument (f.schemaOf s) doc (f.opStr op) with
+    | .ok d _ => d
+    | _ => doc
+
+/-- documents equal up to source locations -/
+def SameShape (d d' : Document) : Prop := d.stripLoc = d'.stripLoc
+
+/-- **normalising_get_transparent — the cache-level theorem without `hdet`.** For a normalising cache whose entries
+are faithful (`InvE`; the fresh cache is), under the explicit key assumption `KeyFaithful SameShape` (see its docstring:
+provable for a printed-document key by `printed_key_faithful`, an ASSUMPTION for the FNV-hash key as coded — D-06k
+exhibits a collision — and for the `"raw:"` fallback), every `Get` that goes through the cache — HIT or miss, whatever was
+evicted, reset or replaced before — hands back a document whose execution with this request's SynthArgs over the
+client's variables equals the execution of this request's own original document with the client's variables; and the
+entries stay faithful. Premises of `normalized_transparent` for this request. Not covered: error LOCATIONS on a hit
+(D-18e) — the model's responses have none. -/
+theorem normalising_get_transparent {S : Type} [DecidableEq S] (fb : PlanCache.KeyShape) (f : Front S)
+    (hkey : PlanCache.KeyFaithful fb SameShape f.norm f.buildN)
+    (errRes : S → PlanCache.Bytes → PlanCache.Bytes → Document) (failed : Document → Bool)
+    (c : PlanCache.Cache S Document) (s : S) (q op : PlanCache.Bytes) (h : PlanCache.InvE fb SameShape f.norm f.buildN c)
+    (doc docN : Document) (synth inputs : Vars) (w : Exec.World) (fuel : Nat)
+    (hparse : f.parse q = some doc) (hnorm : normalizeDocument (f.schemaOf s) doc (f.opStr op) = .ok docN synth)
+    (hcc : customLti (f.schemaOf s)) (hsch : SchemaOK (f.schemaOf s)) (hlex : DocLex doc)
+    (hu : ExecUniform (f.schemaOf s) doc (f.opStr op) inputs w) :
+    PlanCache.InvE fb SameShape f.norm f.buildN (PlanCache.getNorm fb f.norm errRes f.buildN failed c s q op).1 ∧
+    (((PlanCache.getNorm fb f.norm errRes f.buildN failed c s q op).2.2 = .hit ∨
+      (PlanCache.getNorm fb f.norm errRes f.buildN failed c s q op).2.2 = .miss) →
+      Exec.execute (f.schemaOf s) (PlanCache.getNorm fb f.norm errRes f.buildN failed c s q op).2.1.res (f.opStr op)
+          (synth ++ inputs) w fuel =
+        Exec.execute (f.schemaOf s) doc (f.opStr op) inputs w fuel) := by
+  obtain ⟨h1, h2⟩ := PlanCache.normalized_get_faithful fb SameShape (fun _ => rfl)
+    (fun a b c hab hbc => by unfold SameShape at *; rw [hab, hbc]) f.norm errRes f.buildN failed hkey c s q op h
+  refine ⟨h1, fun ho => ?_⟩
+  have hE := h2 ho
+  have hb : f.buildN s q op = docN := by simp only [Front.buildN, hparse, hnorm]
+  rw [hb] at hE
+  exact normalising_hit_transparent (f.schemaOf s) hcc hsch doc docN _ (f.opStr op) inputs synth w fuel hnorm hE hlex hu
+
+/-- what an `.ok` answer of the front end is made of -/
+theorem Front.norm_ok {S : Type} (f : Front S) (s : S) (q op nk : PlanCache.Bytes) (sy : Vars)
+    (h : f.norm s q op = .ok nk sy) :
+    nk = [] ∨ ∃ doc d, f.parse q = some doc ∧ normalizeDocument (f.schemaOf s) doc (f.opStr op) = .ok d sy ∧
+      nk = f.keyOf d (f.opStr op) ∧ f.buildN s q op = d := by
+  unfold Front.norm at h
+  cases hp : f.parse q with
+  | none => simp only [hp] at h; cases h
+  | some doc =>
+    simp only [hp] at h
+    cases hn : normalizeDocument (f.schemaOf s) doc (f.opStr op) with
+    | rootError => simp only [hn] at h; cases h
+    | notApplicable => simp only [hn] at h; cases h; exact Or.inl rfl
+    | ok d sy0 =>
+      simp only [hn] at h
+      cases h
+      exact Or.inr ⟨doc, d, rfl, hn, rfl, by simp only [Front.buildN, hp, hn]⟩
+
+/-- **repaired_key_faithful — the key assumption DISCHARGED for the repaired key.** With the key construction of
+`notes/fixes/D-06k.diff` (`keyShapeRepaired`: length-prefixed operation name; `"raw:" + query` for requests
+normalisation does not apply to; `printedKey` = `"doc:"` + printed normalised document otherwise), equal cache keys
+imply documents equal up to source locations — for ALL byte strings as operation names and queries, no collision
+assumption. Premises: the parser's documents are printer-well-formed (C03's output satisfies C08's `WFDocument`) and
+`SchemaOK`. For the key as coded (`keyShapeCoded` + FNV fingerprint) the same statement is FALSE: D-06k (hash
+collision) and D-06l (the fingerprint does not see definitions the selected operation does not reach). -/
+theorem repaired_key_faithful {S : Type} (f : Front S)
+    (hk : ∀ d op, f.keyOf d op = printedKey d)
+    (hp : ∀ q doc, f.parse q = some doc → Printer.WFDocument doc)
+    (hs : ∀ s, SchemaOK (f.schemaOf s)) :
+    PlanCache.KeyFaithful PlanCache.keyShapeRepaired SameShape f.norm f.buildN := by
+  intro s q op q' op' nk sy nk' sy' hn hn' hkey
+  simp only [PlanCache.normCacheKey, PlanCache.keyShapeRepaired] at hkey
+  obtain ⟨hop, hkk⟩ := PlanCache.rawKey_injective _ _ _ _ hkey
+  subst hop
+  have hdoc : ∀ d : Document, PlanCache.rawFallbackKeyText q ≠ printedKey d ∧
+      PlanCache.rawFallbackKeyText q' ≠ printedKey d := by
+    intro d
+    constructor <;>
+    · intro h
+      simp only [PlanCache.rawFallbackKeyText, printedKey, List.cons_append, List.nil_append, List.cons.injEq] at h
+      exact absurd h.1 (by decide)
+  by_cases h1 : nk = [] <;> by_cases h2 : nk' = []
+  · simp only [h1, h2, if_true, PlanCache.rawFallbackKeyText] at hkk
+    have := List.append_cancel_left hkk
+    subst this
+    rfl
+  · simp only [h1, h2, if_true, if_false] at hkk
+    rcases Front.norm_ok f s q' op nk' sy' hn' with h | ⟨_, d, _, _, hnk, _⟩
+    · exact absurd h h2
+    · rw [hnk, hk] at hkk; exact absurd hkk (hdoc d).1
+  · simp only [h1, h2, if_true, if_false] at hkk
+    rcases Front.norm_ok f s q op nk sy hn with h | ⟨_, d, _, _, hnk, _⟩
+    · exact absurd h h1
+    · rw [hnk, hk] at hkk; exact absurd hkk.symm (hdoc d).2
+  · simp only [h1, h2, if_false] at hkk
+    rcases Front.norm_ok f s q op nk sy hn with h | ⟨doc, d, hpa, hno, hnk, hb⟩
+    · exact absurd h h1
+    rcases Front.norm_ok f s q' op nk' sy' hn' with h | ⟨doc', d', hpa', hno', hnk', hb'⟩
+    · exact absurd h h2
+    rw [hb, hb']
+    rw [hnk, hnk', hk, hk] at hkk
+    exact printed_key_faithful d d'
+      (normalize_keeps_wf _ (hs s) doc d _ sy (hp q doc hpa) hno)
+      (normalize_keeps_wf _ (hs s) doc' d' _ sy' (hp q' doc' hpa') hno') hkk
+
+/-- **normalising_get_transparent_repaired** — `normalising_get_transparent` with the key assumption discharged:
+for the key construction of `notes/fixes/D-06k.diff` no hypothesis about keys or hashes is left. -/
+theorem normalising_get_transparent_repaired {S : Type} [DecidableEq S] (f : Front S)
+    (hk : ∀ d op, f.keyOf d op = printedKey d)
+    (hp : ∀ q doc, f.parse q = some doc → Printer.WFDocument doc)
+    (errRes : S → PlanCache.Bytes → PlanCache.Bytes → Document) (failed : Document → Bool)
+    (c : PlanCache.Cache S Document) (s : S) (q op : PlanCache.Bytes)
+    (h : PlanCache.InvE PlanCache.keyShapeRepaired SameShape f.norm f.buildN c)
+    (doc docN : Document) (synth inputs : Vars) (w : Exec.World) (fuel : Nat)
+    (hparse : f.parse q = some doc) (hnorm : normalizeDocument (f.schemaOf s) doc (f.opStr op) = .ok docN synth)
+    (hcc : customLti (f.schemaOf s)) (hsch : ∀ s, SchemaOK (f.schemaOf s)) (hlex : DocLex doc)
+    (hu : ExecUniform (f.schemaOf s) doc (f.opStr op) inputs w) :
+    PlanCache.InvE PlanCache.keyShapeRepaired SameShape f.norm f.buildN
+        (PlanCache.getNorm PlanCache.keyShapeRepaired f.norm errRes f.buildN failed c s q op).1 ∧
+    (((PlanCache.getNorm PlanCache.keyShapeRepaired f.norm errRes f.buildN failed c s q op).2.2 = .hit ∨
+      (PlanCache.getNorm PlanCache.keyShapeRepaired f.norm errRes f.buildN failed c s q op).2.2 = .miss) →
+      Exec.execute (f.schemaOf s) (PlanCache.getNorm PlanCache.keyShapeRepaired f.norm errRes f.buildN failed c s q op).2.1.res
+          (f.opStr op) (synth ++ inputs) w fuel =
+        Exec.execute (f.schemaOf s) doc (f.opStr op) inputs w fuel) :=
+  normalising_get_transparent PlanCache.keyShapeRepaired f (repaired_key_faithful f hk hp hsch) errRes failed c s q op h
+    doc docN synth inputs w fuel hparse hnorm hcc (hsch s) hlex hu
 
 /-! ## non-vacuity -/
 section Examples
